@@ -350,6 +350,7 @@ def body_E2(ctx):
         ctx.nontrivial(tuple(order))
         ctx.reached("interleaved")
     ctx.sample({"gate_order": order})
+    return received
 
 
 def E2() -> bool:
